@@ -112,3 +112,44 @@ Example C03_exception_witness :
       [ORet 0 RetFresh (rec_of 7 1); ORet 0 RetCache (rec_of 7 1)] /\
     latest_val LGen (w_log (m_w m)) = 2 /\ map (fun i => latest_val (LCell i) (w_log (m_w m))) (seq 0 7) = rec_of 7 2.
 Proof. eexists _, _. split; [vm_compute; reflexivity|]. split; [vm_compute; reflexivity|]. split; vm_compute; reflexivity. Qed.
+
+(* ---------------------------------------------------------------------------------------------
+   Runs of any length (the 16-bit generation may wrap any number of times): monotonicity under the
+   window condition of C02_RA_window instead of the bound on the number of write() calls, and
+   freshness with the documented exception stated exactly. *)
+From CB Require Import GenCyc.
+Open Scope Z_scope.
+
+Theorem C03_monotone_RA_window : forall c ts m o, safe_cfg c = true -> Forall real_token ts ->
+  m_run (m_init c) ts = (m, o) -> run_windows (m_init c) ts ->
+  sorted_from (fun _ => 0%nat) o.
+Proof.
+  intros c ts m o Hs Hts R Hw.
+  apply (m_run_mono_win c Hs ts (m_init c) m o (fun _ => 0%nat) (MInv2_init c) Hts R Hw).
+  split; [intros j r H; destruct j; discriminate | reflexivity].
+Qed.
+
+Theorem C03_later_call_never_older_window : forall c ts m o o1 j ret1 rec1 o2 ret2 rec2 o3,
+  safe_cfg c = true -> Forall real_token ts -> m_run (m_init c) ts = (m, o) -> run_windows (m_init c) ts ->
+  o = o1 ++ ORet j ret1 rec1 :: o2 ++ ORet j ret2 rec2 :: o3 ->
+  (idx_of rec1 <= idx_of rec2)%nat.
+Proof.
+  intros c ts m o o1 j ret1 rec1 o2 ret2 rec2 o3 Hs Hts R Hw E.
+  pose proof (C03_monotone_RA_window c ts m o Hs Hts R Hw) as S. rewrite E in S. eapply sorted_pairs; eauto.
+Qed.
+
+(* the call returns the newest completed publication - freshly read, or from the cache when the
+   cache already holds it - unless the cached record was accepted from an even store that lies a
+   positive multiple of 32767 publications before the newest one (the documented exception) *)
+Theorem C03_fresh_exact : forall c ts m o j r q e, safe_cfg c = true -> (0 < c_retries c)%N ->
+  Forall real_token ts -> m_run (m_init c) ts = (m, o) -> run_windows (m_init c) ts ->
+  nth_error (m_rs m) j = Some r -> r_pc r = RIdle ->
+  latest LGen (w_log (m_w m)) = Some q -> ev (w_log (m_w m)) q = Some e -> e_kind e = KEven ->
+  exists k m' pre ret r', (k <= c_cells c + 4)%nat /\
+    m_run m (repeat (TR j None) k) = (m', pre ++ [ORet j ret (r_cache r')]) /\ Forall is_access pre /\
+    nth_error (m_rs m') j = Some r' /\ r_pc r' = RIdle /\ m_w m' = m_w m /\
+    (r_cache r' = rec_of (c_cells c) (e_att e) \/
+     (ret = RetCache /\ r_cache r' = r_cache r /\
+      exists q' e' d, ev (w_log (m_w m)) q' = Some e' /\ e_kind e' = KEven /\ r_cache r = rec_of (c_cells c) (e_att e') /\
+        0 < d /\ Z.of_nat (evens_upto (w_log (m_w m)) q) = Z.of_nat (evens_upto (w_log (m_w m)) q') + 32767 * d)).
+Proof. exact fresh_machine_exact. Qed.
